@@ -21,6 +21,7 @@ type SpecEnv struct {
 	loop     *Loop
 	phiFrom  *ssa.BasicBlock
 	depth    int
+	atPoint  bool // evaluated at a program point inside a loop body (proof hints): locals by reaching definition
 	qd       int // number of enclosing spec quantifier variables (canonical bound-variable names)
 }
 
@@ -302,7 +303,7 @@ func (e *SpecEnv) reachingDef(name string) (Val, bool) {
 
 func (e *SpecEnv) debugLookup(name string) (Val, bool) {
 	fr := e.fr
-	if e.loop == nil && fr.curBlock != nil {
+	if (e.loop == nil || e.atPoint) && fr.curBlock != nil {
 		if v, ok := e.reachingDef(name); ok {
 			return v, true
 		}
